@@ -40,8 +40,11 @@ package pomsg
 //@   at call fmt.Errorf#0 assert[refused-only-for-a-placeholder-that-is-not-the-next-node;C11] i >= len(names) || names[i] != unbox(part, soymsg.PlaceholderPart).Name
 //@   loop 0
 //@     invariant[children-written-so-far;C11] written == rangeindex + 1 && written <= len(ch) && fresh(names)
+//@   ghost ps []soymsg.Part = nil
+//@   at call soymsg.Parts#0 after set ps = res
 //@   loop 1
-//@     invariant 0 <= i
+//@     invariant[never-more-placeholders-read-than-the-body-has;C11] 0 <= i && i <= len(names)
+//@     invariant[each-name-counted-was-read-from-the-msgid;C11] forall(k, 0, i, exists(j, 0, rangeindex + 1, typeis(ps[j], soymsg.PlaceholderPart) && unbox(ps[j], soymsg.PlaceholderPart).Name == names[k]))
 
 // the msgid is the message's text with {NAME} for each placeholder; for a
 // plural message the singular id is the {case 1} body, the plural id the
